@@ -1,7 +1,9 @@
 """Reference side: CPython `ast` canonicaliser (same JSON schema as the Rust dumper), position
 conversion, tree comparison (DESIGN.md 5). The running interpreter (CPython 3.11) is the reference;
 PEP 695 programs go to a persistent python3.12 helper running this same file."""
-import ast, json, struct, subprocess, sys, os
+import ast, json, struct, subprocess, sys, os, warnings
+
+warnings.filterwarnings('ignore')  # invalid escape sequences etc. are part of the generated domain
 
 PY312 = '/root/.pyenv/versions/3.12.1/bin/python3.12'
 
